@@ -54,10 +54,27 @@ def builder_instr(draw):
 
 @st.composite
 def follow_specs(draw, spec, real_only=False):
+    imag = draw(st.integers(0, 3)) == 0
+    # imaginary time keeps the dtype of the state: a real state needs a real Hamiltonian (the library forbids the silent cast)
     return {"M": draw(st.sampled_from([1, 2, 3, 4, 8, 32])), "dir": draw(st.integers(0, 1)),
-            "hterms": draw(gen.hermitian_hamiltonian(spec, max_terms=3, real_only=real_only)),
+            "hterms": draw(gen.hermitian_hamiltonian(spec, max_terms=3, real_only=real_only or imag)),
             "hnorm": draw(st.sampled_from([0.5, 1.0, 3.0])), "dt": draw(st.sampled_from([0.05, 0.3])),
-            "imag": draw(st.integers(0, 3)) == 0}
+            "imag": imag}
+
+
+@st.composite
+def gauge_instr(draw, on):
+    op = draw(st.sampled_from(["ensure_left", "ensure_right", "canon_stop", "canon_stop", "move_qnidx", "move_qnidx",
+                               "compress_lossless"]))
+    ins = {"op": op, "a": draw(st.integers(0, 20)), "on": on}
+    if op == "canon_stop":
+        ins["stop"] = draw(st.integers(0, 6))
+    if op == "move_qnidx":
+        ins["k"] = draw(st.integers(0, 6))
+    if op == "compress_lossless":
+        ins["dir"] = draw(st.integers(0, 1))
+        ins["mode"] = draw(st.integers(0, 2))
+    return ins
 
 
 @st.composite
@@ -95,10 +112,18 @@ def rt_cases(draw, tier):
             prog.append(draw(chain.mpo_instr(spec)))
         for _ in range(draw(st.integers(0, 4))):
             prog.append(draw(builder_instr()))
-        for _ in range(draw(st.integers(0, 4))):
-            prog.append(draw(chain.gauge_instr(draw(st.sampled_from(["S", "S", "S", "M", "M", "O"])))))
+        for _ in range(draw(st.integers(0, 5))):
+            prog.append(draw(gauge_instr(draw(st.sampled_from(["S", "S", "S", "M", "M", "O"])))))
+    picks = [draw(st.integers(0, 20)) for _ in range(3)]
+    if not product_only:
+        # a last gauge move aimed at the objects that will be dumped (any centre, either direction)
+        for j, on in ((0, "S"), (1, "S"), (0, "M")):
+            if draw(st.integers(0, 2)) > 0:
+                g = draw(gauge_instr(on))
+                g["a"] = picks[j]
+                prog.append(g)
     return {"part": "rt", "model": spec, "prog": prog, "product_only": product_only, "spill": draw(st.booleans()),
-            "follow": draw(follow_specs(spec)), "picks": [draw(st.integers(0, 20)) for _ in range(3)]}
+            "follow": draw(follow_specs(spec)), "picks": picks}
 
 
 TREE_KINDS = {0: ["spin", "spin", "sho", "elec"], 1: ["spin", "elec", "elec", "sho"], 2: ["spin", "spin", "elec"]}
@@ -112,7 +137,9 @@ def tree_cases(draw, tier):
         if s["k"] == "sho":
             s["nbas"] = min(s["nbas"], 3)
             s["dvr"] = False
-    return {"part": "tree", "model": spec, "shape": draw(st.sampled_from(["linear", "binary", "mctdh2", "mctdh3", "t3ns"])),
+    # trees with virtual (dummy) nodes carry a one-component dummy label: the library refuses them for 2-component models
+    shapes = ["linear", "binary"] if q == 2 else ["linear", "binary", "mctdh2", "mctdh3", "t3ns"]
+    return {"part": "tree", "model": spec, "shape": draw(st.sampled_from(shapes)),
             "create": draw(st.sampled_from(["random", "random", "product", "sum"])), "m": draw(st.sampled_from([1, 2, 3, 4, 8])),
             "q": draw(st.integers(0, 50)), "rng": draw(st.integers(0, 10 ** 6)), "cplx": draw(st.booleans()),
             "coeff": draw(st.sampled_from([[1.0, 0.0], [0.6, 0.8], [2.0, 0.0], [-0.5, 0.0]])),
@@ -162,7 +189,7 @@ def crash_cases(draw, tier):
         if js2 is not None:
             js2.update(common)
     # bound the number of job executions (every crash point is one execution): shrink the history, never sample points
-    limit = (500 if kind == "toy" else 120) if tier == "quick" else (4000 if kind == "toy" else 1000)
+    limit = (300 if kind == "toy" else 100) if tier == "quick" else (4000 if kind == "toy" else 1000)
 
     def cost():
         c = _points(js1["nsteps"], js1["dump_mps"], False)
@@ -308,7 +335,9 @@ def run_follow(r, tag, steps, x, y, what):
         okx, vx, ex = _try(fn, x)
         if not okx:
             # the step is not applicable to this object (the original refuses it as well): not a statement about dump/load
-            r.classes.append(f"follow.{name}.original_raises")
+            r.classes.append(f"follow.{name}.original_raises.{vx}")
+            if name == "expectation":
+                continue
             return
         oky, vy, ey = _try(fn, y)
         if not oky:
@@ -468,9 +497,13 @@ def build_tree(spec, shape):
     return BasisTree.t3ns(bl)
 
 
+def tree_order(t):
+    # size-1 physical legs (dummy nodes, one-state sites) are squeezed away by to_contract_args: leave them out of the order
+    return [b for b in t.basis.basis_list if b.nbas > 1]
+
+
 def tree_dense(t):
-    order = t.basis.basis_list
-    return np.asarray(t.todense(order)) * t.coeff
+    return np.asarray(t.todense(tree_order(t))) * t.coeff
 
 
 def run_tree(case, r):
@@ -511,7 +544,7 @@ def run_tree(case, r):
                 if case["create"] == "sum":
                     np.random.seed(case["rng"] + 1)
                     t = t.add(TTNS.random(tree, qarg, case["m"], 1.0))
-            d0 = np.asarray(t.todense(tree.basis_list))
+            d0 = np.asarray(t.todense(tree_order(t)))
             if not np.all(np.isfinite(d0)) or np.linalg.norm(d0) == 0:
                 raise FloatingPointError("non-finite random state")
             if case["cplx"]:
@@ -521,6 +554,7 @@ def run_tree(case, r):
                     t.canonicalise()
                 elif p == "compress":
                     t.compress_config = CompressConfig(CompressCriteria.fixed, max_bonddim=max(case["m"] - 1, 1))
+                    t.canonicalise()
                     t.compress()
                 else:
                     t = t.scale(-1.5)
@@ -567,12 +601,12 @@ def run_tree(case, r):
         def mk(op):
             def s_canon(x):
                 x.canonicalise()
-                return np.asarray(x.todense(x.basis.basis_list)) * x.coeff
+                return tree_dense(x)
 
             def s_compress(x):
                 x.compress_config = CompressConfig(CompressCriteria.fixed, max_bonddim=fol["M"])
                 x.compress()
-                return np.asarray(x.todense(x.basis.basis_list)) * x.coeff
+                return tree_dense(x)
 
             def s_expect(x):
                 return np.array([x.expectation(op)], dtype=complex)
@@ -581,7 +615,7 @@ def run_tree(case, r):
                 x.evolve_config = EvolveConfig(EvolveMethod.tdvp_ps)
                 x.compress_config = CompressConfig(CompressCriteria.fixed, max_bonddim=max(fol["M"], 4))
                 z = x.evolve(op, -1j * fol["dt"] if fol["imag"] else fol["dt"])
-                return np.concatenate([np.ravel(np.asarray(z.todense(z.basis.basis_list)) * z.coeff), [z.coeff]])
+                return np.concatenate([np.ravel(tree_dense(z)), [z.coeff]])
 
             def s_alias(x):
                 # operations on a copy must not reach the object they were copied from
@@ -651,8 +685,9 @@ def match_f11(spec, sig, msg):
 
 
 def match_mpo_lists(spec, sig, msg):
-    """Mpo loaded through the inherited MatrixProduct.load carries nested lists as bond labels"""
-    return spec.get("part") == "rt" and sig.startswith("rt.mpo.qn")
+    """an Mpo loaded through the inherited MatrixProduct.load carries nested lists (not arrays) as bond labels: apply() raises"""
+    return (spec.get("part") == "rt" and sig.startswith("rt.mpo.follow.apply.exc.AttributeError")
+            and "'list' object has no attribute 'shape'" in msg)
 
 
 class C14(Prop):
@@ -703,13 +738,17 @@ class C14(Prop):
                 for dm in (None, "one", "all"):
                     out.append({"part": "crash", "mode": "inproc", "job": _toy(n, dm), "restart": None})
                     out.append({"part": "crash", "mode": "inproc", "job": _toy(n, dm), "restart": _toy(2, dm)})
+            # real process death, every traced system call (x every traced call of the restarted job's dumps)
             for n in (1, 2, 3):
-                for dm in (None, "one", "all"):
-                    out.append({"part": "crash", "mode": "death", "job": _toy(n, dm, 3000), "restart": _toy(2, dm, 3000)})
+                out.append({"part": "crash", "mode": "death", "job": _toy(n, None, 3000), "restart": _toy(2, None, 3000)})
+            out.append({"part": "crash", "mode": "death", "job": _toy(1, "one", 3000), "restart": _toy(2, "one", 3000)})
+            out.append({"part": "crash", "mode": "death", "job": _toy(2, "all", 3000), "restart": _toy(1, "all", 3000)})
+            out.append({"part": "crash", "mode": "death", "job": _toy(2, "one", 3000), "restart": _toy(1, None, 3000)})
             out.append({"part": "crash", "mode": "death", "job": _toy(4, "all", 20000), "restart": None})
             for exact in (True, False):
                 out.append({"part": "crash", "mode": "death", "job": _thermal(3, "one", exact), "restart": None})
-                out.append({"part": "crash", "mode": "death", "job": _thermal(2, "all", exact), "restart": _thermal(2, "one", exact)})
+                out.append({"part": "crash", "mode": "death", "job": _thermal(2, None, exact), "restart": _thermal(2, None, exact)})
+            out.append({"part": "crash", "mode": "death", "job": _thermal(1, "one", True), "restart": _thermal(1, "one", True)})
         return out
 
     def run_case(self, case):
